@@ -81,3 +81,82 @@ theorem dropIdx_eq (l idx : List Int) :
   simp
 
 end MV.Lemmas.Coll
+
+namespace MV.Lemmas.Coll
+open MV.Model.Coll MV.Spec.Coll
+
+theorem filter_congr_mem {α} {p q : α → Bool} {l : List α} (h : ∀ x ∈ l, p x = q x) : l.filter p = l.filter q := by
+  induction l with
+  | nil => rfl
+  | cons a as ih =>
+    have ha := h a (by simp)
+    have ih' := ih (fun x hx => h x (by simp [hx]))
+    simp [List.filter, ha, ih']
+
+theorem exclIn_contains (len : Nat) (idx : List Int) (i : Nat) (hi : i < len) :
+    (exclIn len idx).contains (i : Int) = idx.contains (i : Int) := by
+  simp only [exclIn, List.contains_eq_mem, List.mem_filter, Bool.and_eq_true, decide_eq_true_eq]
+  have h1 : (0 : Int) ≤ (i : Int) := by omega
+  have h2 : (i : Int) < (len : Int) := by omega
+  simp [h1, h2]
+
+/-- `FilterOutByIndices`: the elements whose index is not listed (out-of-range indices are ignored) -/
+theorem filterOutByIndices_spec (l : List Int) (idx : Sl) :
+    (filterOutByIndices (some l) idx).els = dropIdx l idx.els := by
+  rw [dropIdx_eq]
+  unfold filterOutByIndices
+  generalize idx.els = ix
+  dsimp only
+  have hall : ∀ ex : List Int, (∀ q ∈ enumFrom 0 l, ex.contains (q.1 : Int) = false) →
+      ((enumFrom 0 l).filter (fun q => !ex.contains (q.1 : Int))).map (·.2) = l := by
+    intro ex h
+    have : (enumFrom 0 l).filter (fun q => !ex.contains (q.1 : Int)) = enumFrom 0 l := by
+      apply List.filter_eq_self.mpr
+      intro q hq; rw [h q hq]; rfl
+    rw [this, enumFrom_map_snd]
+  have hex : ((enumFrom 0 l).filter (fun q => !(exclIn l.length ix).contains (q.1 : Int)))
+      = ((enumFrom 0 l).filter (fun q => !ix.contains (q.1 : Int))) := by
+    apply filter_congr_mem
+    intro q hq
+    have := mem_enumFrom l 0 q hq
+    rw [exclIn_contains l.length ix q.1 (by omega)]
+  by_cases h1 : l.length = 0 ∨ ix.length = 0
+  · rw [if_pos h1]
+    show l = _
+    rcases h1 with h1 | h1
+    · have : l = [] := List.length_eq_zero_iff.mp h1
+      subst this; simp [enumFrom]
+    · have : ix = [] := List.length_eq_zero_iff.mp h1
+      rw [this]
+      exact (hall [] (by intro q _; rfl)).symm
+  · rw [if_neg h1]
+    by_cases h2 : (exclIn l.length ix).length = 0
+    · rw [if_pos h2]
+      show l = _
+      have he : exclIn l.length ix = [] := List.length_eq_zero_iff.mp h2
+      rw [← hex, he]
+      exact (hall [] (by intro q _; rfl)).symm
+    · rw [if_neg h2]
+      show _ = _
+      rw [← hex]
+      rfl
+
+/-- `DropSliceByIndices` leaves the same elements in `(*s)[:len]` -/
+theorem dropSliceByIndices_spec (l : List Int) (idx : Sl) :
+    (dropSliceByIndices (some l) idx).map InPlace.result = some (dropIdx l idx.els) := by
+  rw [dropIdx_eq]
+  unfold dropSliceByIndices
+  generalize idx.els = ix
+  dsimp only
+  by_cases h1 : ix.length = 0
+  · have hix : ix = [] := List.length_eq_zero_iff.mp h1
+    subst hix
+    simp only [List.length_nil, if_true, Option.map_some, InPlace.result, List.take_length]
+    have : (enumFrom 0 l).filter (fun q => !([] : List Int).contains (q.1 : Int)) = enumFrom 0 l := by
+      apply List.filter_eq_self.mpr
+      intro q _; rfl
+    rw [this, enumFrom_map_snd]
+  · simp only [h1, if_false, Option.map_some]
+    rw [compact_stateless (fun i _ => !ix.contains (i : Int)) l]
+
+end MV.Lemmas.Coll
